@@ -3,8 +3,8 @@ import GrVerif.Proofs.HeapGid
 /-!
 # Glyph ids through the whole pass engine (C03, glyph-id clause)
 
-`PG N K c`: the rule context carries the class map `K` and every slot of the heap has a glyph id below `N`.  The matcher, `adjustSlot`,
-the rule loop, the pass sequencing and the reversal between passes write neither the class map nor a glyph id; rule actions keep `PG`
+`PGid N K c`: the rule context carries the class map `K` and every slot of the heap has a glyph id below `N`.  The matcher, `adjustSlot`,
+the rule loop, the pass sequencing and the reversal between passes write neither the class map nor a glyph id; rule actions keep `PGid`
 (`doAction_gid`); `read_text` takes the glyph ids from the cmap; `associateChars` does not touch them.  Hence: on a font whose cmap and
 class map name only glyphs below `N`, every slot of a segment the modelled pipeline returns has a glyph id below `N`.
 -/
@@ -77,16 +77,16 @@ theorem adjustSlot_classes (c : Ctx) (d : Int) (so : Option Nat) : (adjustSlot c
 theorem noteLoop_classes (c : Ctx) (a b : Nat) : (noteLoop c a b).classes = c.classes := by
   unfold noteLoop; simp only []; split <;> rfl
 
-/-- `PG` depends on the segment and the class map only -/
-theorem PG_frame {N : Nat} {K : Array (List Nat)} {c c' : Ctx} (h : PG N K c) (hs : c'.seg = c.seg) (hc : c'.classes = c.classes) : PG N K c' :=
+/-- `PGid` depends on the segment and the class map only -/
+theorem PGid_frame {N : Nat} {K : Array (List Nat)} {c c' : Ctx} (h : PGid N K c) (hs : c'.seg = c.seg) (hc : c'.classes = c.classes) : PGid N K c' :=
   ⟨by rw [hc]; exact h.1, by rw [hs]; exact h.2⟩
 
 section engine
 variable {N : Nat} {K : Array (List Nat)} (hN : 0 < N) (hK : ClassesOK N K)
 include hN hK
 
-theorem findNDoRule_PG (p : PassT) (c : Ctx) (slot : Nat) (h : PG N K c)
-    {c' : Ctx} {s' : Option Nat} {st : Status} (e : findNDoRule p c slot = .ok (c', s', st)) : PG N K c' := by
+theorem findNDoRule_PGid (p : PassT) (c : Ctx) (slot : Nat) (h : PGid N K c)
+    {c' : Ctx} {s' : Option Nat} {st : Status} (e : findNDoRule p c slot = .ok (c', s', st)) : PGid N K c' := by
   have f1 := runFSM_seg p c slot
   have f2 := runFSM_classes p c slot
   unfold findNDoRule at e
@@ -95,7 +95,7 @@ theorem findNDoRule_PG (p : PassT) (c : Ctx) (slot : Nat) (h : PG N K c)
   obtain ⟨ok, c1, rules⟩ := r
   intro e f1 f2
   simp only [] at f1 f2 e
-  have h1 : PG N K c1 := PG_frame h f1 f2
+  have h1 : PGid N K c1 := PGid_frame h f1 f2
   split at e
   · cases e; exact h1
   · split at e
@@ -111,7 +111,7 @@ theorem findNDoRule_PG (p : PassT) (c : Ctx) (slot : Nat) (h : PG N K c)
           split at e
           · cases e
           · rename_i ret status slotOut c2 hact
-            have h2 : PG N K c2 := doAction_gid hN hK _ _ _ _ _ h1 hact
+            have h2 : PGid N K c2 := doAction_gid hN hK _ _ _ _ _ h1 hact
             split at e
             · cases e; exact h2
             · have a1 := adjustSlot_seg c2 ret slotOut
@@ -122,10 +122,10 @@ theorem findNDoRule_PG (p : PassT) (c : Ctx) (slot : Nat) (h : PG N K c)
               intro e a1 a2
               simp only [] at a1 a2 e
               cases e
-              exact PG_frame h2 a1 a2
+              exact PGid_frame h2 a1 a2
 
-theorem ruleLoop_PG (p : PassT) : ∀ (fuel : Nat) (c : Ctx) (s : Nat) (lc : Int) (it : Nat),
-    PG N K c → ∀ {c' : Ctx} {n : Nat}, ruleLoop p fuel c s lc it = .ok (some c', n) → PG N K c' := by
+theorem ruleLoop_PGid (p : PassT) : ∀ (fuel : Nat) (c : Ctx) (s : Nat) (lc : Int) (it : Nat),
+    PGid N K c → ∀ {c' : Ctx} {n : Nat}, ruleLoop p fuel c s lc it = .ok (some c', n) → PGid N K c' := by
   intro fuel
   induction fuel with
   | zero => intro c s lc it _ c' n e; unfold ruleLoop at e; cases e
@@ -135,7 +135,7 @@ theorem ruleLoop_PG (p : PassT) : ∀ (fuel : Nat) (c : Ctx) (s : Nat) (lc : Int
     split at e
     · cases e
     · rename_i c1 s1 st hf
-      have h1 : PG N K c1 := findNDoRule_PG hN hK p c s h hf
+      have h1 : PGid N K c1 := findNDoRule_PGid hN hK p c s h hf
       split at e
       · cases e
       · split at e
@@ -145,17 +145,17 @@ theorem ruleLoop_PG (p : PassT) : ∀ (fuel : Nat) (c : Ctx) (s : Nat) (lc : Int
           by_cases hit : (some s2 = c1.highwater ∨ c1.highpassed = true)
           · simp only [hit, if_true, true_or] at e
             split at e
-            · exact ih _ _ _ _ (show PG N K (c1.restartAt _) from ⟨h1.1, h1.2⟩) e
+            · exact ih _ _ _ _ (show PGid N K (c1.restartAt _) from ⟨h1.1, h1.2⟩) e
             · cases e; exact h1
           · simp only [hit, if_false, false_or] at e
             split at e
             · split at e
-              · exact ih _ _ _ _ (show PG N K (c1.restartAt _) from ⟨h1.1, h1.2⟩) e
+              · exact ih _ _ _ _ (show PGid N K (c1.restartAt _) from ⟨h1.1, h1.2⟩) e
               · cases e; exact h1
             · exact ih _ _ _ _ h1 e
 
-theorem runPass_PG (p : PassT) (c : Ctx) (fuel : Nat) (h : PG N K c) {c' : Ctx}
-    (e : runPass p c fuel = .ok (some c')) : PG N K c' := by
+theorem runPass_PGid (p : PassT) (c : Ctx) (fuel : Nat) (h : PGid N K c) {c' : Ctx}
+    (e : runPass p c fuel = .ok (some c')) : PGid N K c' := by
   unfold runPass at e
   split at e
   · cases e; exact h
@@ -167,8 +167,8 @@ theorem runPass_PG (p : PassT) (c : Ctx) (fuel : Nat) (h : PG N K c) {c' : Ctx}
       · cases e
       · rename_i c2 it hr
         cases e
-        have := ruleLoop_PG hN hK p _ _ _ _ 0 (show PG N K (c.restartAt _) from ⟨h.1, h.2⟩) hr
-        exact PG_frame this (noteLoop_seg _ _ _) (noteLoop_classes _ _ _)
+        have := ruleLoop_PGid hN hK p _ _ _ _ 0 (show PGid N K (c.restartAt _) from ⟨h.1, h.2⟩) hr
+        exact PGid_frame this (noteLoop_seg _ _ _) (noteLoop_classes _ _ _)
 
 omit hN hK in
 theorem reverse_gid (s : Seg) (mark : Nat → Bool) (h : GidOK N s) : GidOK N (s.reverseSlots mark) := by
@@ -179,30 +179,36 @@ theorem reverse_gid (s : Seg) (mark : Nat → Bool) (h : GidOK N s) : GidOK N (s
   rw [this]
   exact h j
 
-theorem runPassDir_PG (p : PassT) (c : Ctx) (fuel : Nat) (h : PG N K c) {c' : Ctx}
-    (e : runPassDir p c fuel = .ok (some c')) : PG N K c' := by
+theorem runPassDir_PGid (p : PassT) (c : Ctx) (fuel : Nat) (h : PGid N K c) {c' : Ctx}
+    (e : runPassDir p c fuel = .ok (some c')) : PGid N K c' := by
   unfold runPassDir at e
   split at e
   · cases e; exact h
   · simp only [] at e
-    refine runPass_PG hN hK p _ fuel ?_ e
-    split
-    · exact ⟨h.1, reverse_gid _ _ h.2⟩
-    · exact h
+    split at e
+    · cases e
+    · split at e
+      · cases e
+      · split at e
+        · cases e; exact h
+        · refine runPass_PGid hN hK p _ fuel ?_ e
+          split
+          · exact ⟨h.1, reverse_gid _ _ h.2⟩
+          · exact h
 
-theorem runRange_PG (passes : Array PassT) (c : Ctx) (lo hi fuel : Nat) (h : PG N K c)
-    {c' : Ctx} (e : runRange passes c lo hi fuel = .ok (some c')) : PG N K c' := by
+theorem runRange_PGid (passes : Array PassT) (c : Ctx) (lo hi fuel : Nat) (h : PGid N K c)
+    {c' : Ctx} (e : runRange passes c lo hi fuel = .ok (some c')) : PGid N K c' := by
   unfold runRange at e
   simp only [] at e
   have : ∀ (ks : List Nat),
-      ∀ (acc : Except String (Option Ctx)), (∀ x, acc = .ok (some x) → PG N K x) →
+      ∀ (acc : Except String (Option Ctx)), (∀ x, acc = .ok (some x) → PGid N K x) →
       ∀ x, ks.foldl (fun (acc : Except String (Option Ctx)) k =>
         match acc with
         | .ok (some c1) =>
           (match runPassDir (passes.getD (lo + k) default) c1 fuel with
            | .ok (some c2) => if c2.seg.numGlyphs > 0 ∧ c2.seg.numGlyphs > c.seg.numGlyphs * 64 then .ok none else .ok (some c2)
            | o => o)
-        | o => o) acc = .ok (some x) → PG N K x := by
+        | o => o) acc = .ok (some x) → PGid N K x := by
     intro ks
     induction ks with
     | nil => intro acc ha x hx; exact ha x hx
@@ -218,7 +224,7 @@ theorem runRange_PG (passes : Array PassT) (c : Ctx) (lo hi fuel : Nat) (h : PG 
           split at hy
           · cases hy
           · cases hy
-            exact runPassDir_PG hN hK _ c1 fuel (ha c1 rfl) hrp
+            exact runPassDir_PGid hN hK _ c1 fuel (ha c1 rfl) hrp
         · rename_i o hno
           exact absurd hy (by
             intro hh
@@ -312,8 +318,8 @@ theorem shape_gid {N : Nat} (hN : 0 < N) (font : Font) (hcm : ∀ u, font.cmap u
     · cases e
     · cases e
     · rename_i c1 h1
-      have w0 : PG N font.classes (initCtx font text dir) := ⟨rfl, initSeg_gid hN font hcm text dir⟩
-      have w1 := runRange_PG hN hK _ _ _ _ _ w0 h1
+      have w0 : PGid N font.classes (initCtx font text dir) := ⟨rfl, initSeg_gid hN font hcm text dir⟩
+      have w1 := runRange_PGid hN hK _ _ _ _ _ w0 h1
       split at e
       · cases e
       · rename_i seg' ci' hre
@@ -324,7 +330,7 @@ theorem shape_gid {N : Nat} (hN : 0 < N) (font : Font) (hcm : ∀ u, font.cmap u
         · rename_i c2 h2
           simp only [Except.ok.injEq, Option.some.injEq, Prod.mk.injEq] at e
           rw [← e.1]
-          exact (runRange_PG hN hK _ _ _ _ _ (show PG N font.classes (c1.withSeg seg') from ⟨w1.1, w2⟩) h2).2
+          exact (runRange_PGid hN hK _ _ _ _ _ (show PGid N font.classes (c1.withSeg seg') from ⟨w1.1, w2⟩) h2).2
 
 /-! ## the hypothesis as a test that can be run -/
 
